@@ -10,6 +10,7 @@ import RNacos.Driver.StoreDrv
 import RNacos.Driver.ApplyDrv
 import RNacos.Driver.PrivDrv
 import RNacos.Driver.CrashDrv
+import RNacos.Driver.AckDrv
 open RNacos.Driver
 
 /-- Generic loop: `# …` lines are echoed and reset the state. -/
@@ -46,6 +47,8 @@ def main (args : List String) : IO UInt32 := do
   | ["config", "--spec"] => loop stdin stdout ({} : ConfigDrv.SpecSt) ConfigDrv.specStep {}; return 0
   | ["naming"] => loop stdin stdout ({} : RNacos.Naming.Naming) NamingDrv.step {}; return 0
   | ["naming", "--spec"] => loop stdin stdout ({} : NamingDrv.SpecSt) NamingDrv.specStep {}; return 0
+  | ["ack"] => loop stdin stdout ({} : AckDrv.St) AckDrv.step {}; return 0
+  | ["ack", "--spec"] => loop stdin stdout ({} : AckDrv.SpecSt) AckDrv.specStep {}; return 0
   | ["crash"] => loop stdin stdout () CrashDrv.step (); return 0
   | ["crash", "--spec"] => loop stdin stdout ({} : CrashDrv.SpecSt) CrashDrv.specStep {}; return 0
   | ["priv"] => loop stdin stdout () PrivDrv.step (); return 0
